@@ -7,6 +7,7 @@ require (
 	github.com/akrennmair/updog v0.0.0
 	go.etcd.io/bbolt v1.4.0
 	google.golang.org/grpc v1.70.0
+	google.golang.org/protobuf v1.36.5
 	pgregory.net/rapid v1.3.0
 )
 
@@ -17,7 +18,6 @@ require (
 	golang.org/x/sys v0.30.0 // indirect
 	golang.org/x/text v0.22.0 // indirect
 	google.golang.org/genproto/googleapis/rpc v0.0.0-20250303144028-a0af3efb3deb // indirect
-	google.golang.org/protobuf v1.36.5 // indirect
 )
 
 replace github.com/akrennmair/updog => /repo
